@@ -96,6 +96,7 @@ package internal
 
 // ---- go/types facts (assumed, listed in the evidence) ---------------------------------------------
 //@ axiom func_type_is_signature: forall f *types.Func :: dyn(f.Type()) == tagof(*types.Signature)
+//@ axiom iface_method_nonnil: forall it *types.Interface, i int :: 0 <= i && i < it.NumMethods() ==> it.Method(i) != nil
 //@ axiom tuple_at_nonnil: forall t *types.Tuple, i int :: 0 <= i && i < t.Len() ==> t.At(i) != nil
 
 // ---- C02 / C13 / C14: the data model of one method --------------------------------------------------
@@ -107,18 +108,92 @@ package internal
 //@ define keyName(t types.Type) string = dyn(t) == tagof(*types.Named) ? unbox(*types.Named, t).Obj().Name() : (dyn(t) == tagof(*types.Alias) ? unbox(*types.Alias, t).Obj().Name() : "")
 //@ define repl(c *config.Config, p string, n string) *config.ReplaceType = ((p in c.ReplaceType) && (n in c.ReplaceType[p])) ? c.ReplaceType[p][n] : nil
 
+//   GenFrame: building the data model touches only the file registry's two maps and freshly allocated objects.
+//@ define GenFrame(g *TemplateGenerator) bool = (forall s *template.MethodScope :: old(allocated(s)) ==> s.vars == old(s.vars))
+//@     && (forall mm map[string]*template.Package :: old(allocated(mm)) && mm != g.registry.imports && mm != g.registry.importQualifiers ==> unchanged(mm))
+//@     && (forall nn map[string]any :: old(allocated(nn)) ==> unchanged(nn))
+//   VarsOK: the variables of a scope are distinct, existing objects.
+//@ define VarsOK(m *template.MethodScope) bool = (forall a int :: 0 <= a && a < len(m.vars) ==> m.vars[a] != nil && allocated(m.vars[a])) && (forall a, b int :: 0 <= a && a < b && b < len(m.vars) ==> m.vars[a] != m.vars[b])
 //@ func (*TemplateGenerator).methodData props=C02,C13,C14
 //@   requires g.registry != nil && allocated(g.registry) && RegInv(g.registry) && method != nil && ifaceConfig != nil
 //@   site#param AddVar@0: $1 == sigOf(method).Params().At(j) && $2 == "" && $3 == repl(ifaceConfig, keyPath($1.Type()), keyName($1.Type()))
 //@   site#result AddVar@1: $1 == sigOf(method).Results().At(j) && $2 == "" && $3 == repl(ifaceConfig, keyPath($1.Type()), keyName($1.Type()))
 //@   site#samescope AddVar: $recv == methodScope
 //@   ensures#name err == nil ==> result.Name == method.Name() && result.Scope != nil
+//@   ensures#scope err == nil ==> fresh(result.Scope) && result.Scope.visibleNames != nil && fresh(result.Scope.visibleNames) && VarsOK(result.Scope)
 //@   ensures#counts err == nil ==> len(result.Params) == sigOf(method).Params().Len() && len(result.Returns) == sigOf(method).Results().Len()
 //@   ensures#params err == nil ==> (forall k int :: 0 <= k && k < len(result.Params) ==> result.Params[k].Var != nil && result.Params[k].Var.vr == sigOf(method).Params().At(k)
 //@         && result.Params[k].Variadic == (sigOf(method).Variadic() && k == len(result.Params) - 1))
 //@   ensures#returns err == nil ==> (forall k int :: 0 <= k && k < len(result.Returns) ==> result.Returns[k].Var != nil && result.Returns[k].Var.vr == sigOf(method).Results().At(k) && !result.Returns[k].Variadic)
-//@   loop 0: invariant 0 <= j && j <= len(params) && len(params) == sigOf(method).Params().Len() && methodScope != nil && ScopeOK(methodScope)
+//@   loop 0: invariant 0 <= j && j <= len(params) && len(params) == sigOf(method).Params().Len() && methodScope != nil && ScopeOK(methodScope) && fresh(methodScope) && methodScope.registry == g.registry && g.registry == old(g.registry) && fresh(methodScope.visibleNames) && fresh(methodScope.imports) && GenFrame(g) && VarsOK(methodScope)
 //@   loop 0: invariant#filled forall k int :: 0 <= k && k < j ==> params[k].Var != nil && params[k].Var.vr == sigOf(method).Params().At(k) && params[k].Variadic == (sigOf(method).Variadic() && k == len(params) - 1)
-//@   loop 2: invariant 0 <= j && j <= len(returns) && len(returns) == sigOf(method).Results().Len() && len(params) == sigOf(method).Params().Len() && methodScope != nil && ScopeOK(methodScope)
+//@   loop 2: invariant 0 <= j && j <= len(returns) && len(returns) == sigOf(method).Results().Len() && len(params) == sigOf(method).Params().Len() && methodScope != nil && ScopeOK(methodScope) && fresh(methodScope) && methodScope.registry == g.registry && g.registry == old(g.registry) && fresh(methodScope.visibleNames) && fresh(methodScope.imports) && GenFrame(g) && VarsOK(methodScope)
 //@   loop 2: invariant#filled forall k int :: 0 <= k && k < j ==> returns[k].Var != nil && returns[k].Var.vr == sigOf(method).Results().At(k) && !returns[k].Variadic
 //@   loop 2: invariant#params forall k int :: 0 <= k && k < len(params) ==> params[k].Var != nil && params[k].Var.vr == sigOf(method).Params().At(k) && params[k].Variadic == (sigOf(method).Variadic() && k == len(params) - 1)
+//@   ensures#inv RegInv(g.registry) && g.registry == old(g.registry)
+//@   assigns g.registry.imports, g.registry.importQualifiers, fresh
+
+//@ axiom typeparam_constraint_is_interface: forall tp *types.TypeParam :: dyn(tp.Constraint().Underlying()) == tagof(*types.Interface)
+//@ axiom newparam_type: forall pos token.Pos, pkg *types.Package, name string, typ types.Type :: types.NewParam(pos, pkg, name, typ) != nil && types.NewParam(pos, pkg, name, typ).Type() == typ
+//@ axiom typeparamlist_at_nonnil: forall l *types.TypeParamList, i int :: 0 <= i && i < l.Len() ==> l.At(i) != nil && l.At(i).Obj() != nil
+
+//@ func explicitConstraintType props=C14,C09
+//@   requires typeParam != nil && dyn(typeParam.Type().Underlying()) == tagof(*types.Interface)
+//@   assigns nothing
+
+// The type-parameter data reproduces the interface's type parameters, in order, with their constraints (C14).
+//@ func (*TemplateGenerator).typeParams props=C14,C02
+//@   requires g.registry != nil && allocated(g.registry) && RegInv(g.registry)
+//@   site AddVar: $1 == typeParam && $2 == "" && $3 == nil && typeParam == types.NewParam(token.Pos(i), tparams.At(i).Obj().Pkg(), tparams.At(i).Obj().Name(), tparams.At(i).Constraint())
+//@   ensures#none tparams == nil ==> err == nil && len(result) == 0
+//@   ensures#count err == nil && tparams != nil ==> len(result) == tparams.Len()
+//@   ensures#each err == nil && tparams != nil ==> (forall k int :: 0 <= k && k < len(result) ==> result[k].Param.Var != nil
+//@         && result[k].Param.Var.vr == types.NewParam(token.Pos(k), tparams.At(k).Obj().Pkg(), tparams.At(k).Obj().Name(), tparams.At(k).Constraint()) && !result[k].Param.Variadic)
+//@   ensures#inv RegInv(g.registry)
+//@   loop 0: invariant 0 <= i && i <= len(tpd) && len(tpd) == tparams.Len() && tparams != nil && scope != nil && ScopeOK(scope) && fresh(scope) && fresh(scope.visibleNames) && fresh(scope.imports) && scope.registry == g.registry && g.registry == old(g.registry) && GenFrame(g)
+//@   loop 0: invariant#each forall k int :: 0 <= k && k < i ==> tpd[k].Param.Var != nil && tpd[k].Param.Var.vr == types.NewParam(token.Pos(k), tparams.At(k).Obj().Pkg(), tparams.At(k).Obj().Name(), tparams.At(k).Constraint()) && !tpd[k].Param.Variadic
+//@   assigns g.registry.imports, g.registry.importQualifiers, fresh
+
+// ---- destination package (C01 items 4 and 5; C10: only the output directory is created) ------------
+//@ axiom parselax_nonnil: forall n string, d []byte, f modfile.VersionFixer :: second(modfile.ParseLax(n, d, f)) == nil ==> modfile.ParseLax(n, d, f) != nil
+//@ func findPkgPath props=C01,C09,C10
+//@   safety fs-frame
+//@   requires dirPath != nil
+//@   site MkdirAll: $recv == dirPath && called("MkdirAll") == 1
+//@   loop 0: invariant 0 <= i && i <= 1000 && cursor != nil
+//@   loop 0: decreases 1000 - i
+//@   assigns nothing
+//@   returns#modpath err == nil ==> goModParsed != nil && goModParsed.Module != nil && moduleName == goModParsed.Module.Mod.Path && moduleName != ""
+
+// The mock is "in package" exactly when it has the source package's name and lives in its directory.
+//@ func NewTemplateGenerator props=C01,C09
+//@   requires srcPkg != nil && len(srcPkg.GoFiles) > 0 && outPkgFSPath != nil
+//@   ensures#fields err == nil ==> result != nil && result.templateName == templateName && result.templateSchema == templateSchema && result.requireSchemaExists == requireSchemaExists
+//@         && result.formatter == formatter && result.pkgConfig == pkgConfig && result.pkgName == pkgName && result.remoteTemplateCache == remoteTemplateCache
+//@   ensures#registry err == nil ==> result.registry != nil && fresh(result.registry) && RegInv(result.registry) && result.registry.inPackage == result.inPackage && result.registry.srcPkg == srcPkg
+//@   returns#inpackage err == nil ==> (inPackage == (pkgName == srcPkg.Name && pathlib.NewPath(srcPkg.GoFiles[0]).Parent().Equals(now(outPkgFSPath)))) && reg.dstPkgPath == outPkgPath
+//@   returns#notinpkg err == nil && pkgName != srcPkg.Name ==> !inPackage
+
+// ---- Generate: the stages of producing one output file (C12, C10, C02, C09) -----------------------
+// Nothing is written by Generate itself (fs-frame); bytes are returned only after template retrieval,
+// schema validation at file level and for every interface, execution and formatting all succeeded,
+// in that order; every interface gets one Method per method of its (looked-up) interface, in order.
+//@ define ifaceOf(r *template.Registry, name string) *types.Interface = unbox(*types.Interface, r.srcPkg.Types.Scope().Lookup(name).Type().Underlying()).Complete()
+//@ func (*TemplateGenerator).Generate props=C12,C10,C02,C09,C14
+//@   safety fs-frame
+//@   requires g.registry != nil && allocated(g.registry) && RegInv(g.registry) && g.registry.srcPkg != nil && g.pkgConfig != nil && g.remoteTemplateCache != nil && CacheInv(g.remoteTemplateCache)
+//@   requires forall k int :: 0 <= k && k < len(interfaces) ==> interfaces[k] != nil && interfaces[k].Config != nil && interfaces[k].Config.StructName != nil && interfaces[k].Pkg != nil
+//@   site#validated format: schema != nil ==> (validTD(schema, data.TemplateData) && (forall k int :: 0 <= k && k < len(data.Interfaces) ==> validTD(schema, data.Interfaces[k].TemplateData)))
+//@   site#schemaneeded format: (!isRemote(g.templateName) || g.requireSchemaExists) ==> schema != nil
+//@   site#order format: called("getTemplate") == 1 && called("text/template.(*Template).Execute") == 1 && lastErr("text/template.(*Template).Execute") == nil
+//@   site#filedata validateSchema: $1 == data && data.TemplateData == g.pkgConfig.TemplateData && len(data.Interfaces) == len(interfaces) && $2 == schema
+//@   site#methods methodData: $1 == iface.Method(i) && $2 == ifaceMock.Config && iface == ifaceOf(g.registry, ifaceMock.Name)
+//@   ensures#nobytes err != nil ==> len(result) == 0
+//@   returns#formatted err == nil ==> called("format") == 1
+//@   loop 0: invariant g.registry == old(g.registry) && RegInv(g.registry) && g.registry.srcPkg == old(g.registry.srcPkg) && len(mockData) == $i && GenFrame(g)
+//@   loop 0: invariant#cache g.remoteTemplateCache == old(g.remoteTemplateCache) && CacheInv(g.remoteTemplateCache) && g.pkgConfig == old(g.pkgConfig)
+//@   loop 0: invariant#td forall k int :: 0 <= k && k < $i ==> mockData[k].TemplateData == interfaces[k].Config.TemplateData && mockData[k].Name == interfaces[k].Name
+//@   loop 1: invariant 0 <= i && i <= len(methods) && len(methods) == iface.NumMethods() && g.registry == old(g.registry) && RegInv(g.registry) && GenFrame(g)
+//@   loop 1: invariant#names forall k int :: 0 <= k && k < i ==> methods[k].Name == iface.Method(k).Name() && methods[k].Scope != nil && fresh(methods[k].Scope) && methods[k].Scope.visibleNames != nil && fresh(methods[k].Scope.visibleNames) && VarsOK(methods[k].Scope)
+//@   loop 2: invariant g.registry == old(g.registry) && RegInv(g.registry) && GenFrame(g) && len(methods) == iface.NumMethods()
+//@   loop 2: invariant#names forall k int :: 0 <= k && k < len(methods) ==> methods[k].Name == iface.Method(k).Name() && methods[k].Scope != nil && fresh(methods[k].Scope) && methods[k].Scope.visibleNames != nil && fresh(methods[k].Scope.visibleNames) && VarsOK(methods[k].Scope)
